@@ -163,8 +163,59 @@ func checkC09(c *Ctx) {
 			}
 			return ""
 		})
+	c09SharedBucket(c, allow)
 	c09Isolation(c, allow)
 	c09Gate(c)
+}
+
+// c09SharedBucket: the bucket Allow locks and spends from is the one held in the shared map: the
+// helper that finds it returns Load's or LoadOrStore's value on every path, never a private copy.
+func c09SharedBucket(c *Ctx, allow *ssa.Function) {
+	p := c.P
+	rule, construct := "bucket-is-shared", "ratelimiter.(*TokenBucketRateLimiter).Allow/bucket"
+	if allow == nil {
+		c.Missing(rule, construct)
+		return
+	}
+	var src ssa.Value
+	for _, ci := range callsIn(allow) {
+		if op, ok := asLockOp(ci); ok && op.Acquire && op.Class == "ratelimiter.bucket.mutex" {
+			if fa, ok := ci.Common().Args[0].(*ssa.FieldAddr); ok {
+				src = fa.X
+			}
+		}
+	}
+	if src == nil {
+		c.Undecided(rule, construct, p.Pos(allow.Pos()), "Allow does not lock a bucket mutex")
+		return
+	}
+	var bad []string
+	var check func(v ssa.Value, depth int)
+	check = func(v ssa.Value, depth int) {
+		v = stripConv(v)
+		if ta, ok := v.(*ssa.TypeAssert); ok {
+			v = ta.X
+		}
+		d := p.Desc(v, nil)
+		switch {
+		case strings.HasPrefix(d, "call:(*sync.Map).Load(") && strings.HasSuffix(d, "#0"):
+		case strings.HasPrefix(d, "call:(*sync.Map).LoadOrStore(") && strings.HasSuffix(d, "#0"):
+		default:
+			if call, ok := v.(*ssa.Call); ok && depth < 3 {
+				if h := StaticFn(call); h != nil && p.IsHelios(h) {
+					instrsOf(h, func(in ssa.Instruction) {
+						if r, ok := in.(*ssa.Return); ok && len(r.Results) == 1 {
+							check(r.Results[0], depth+1)
+						}
+					})
+					return
+				}
+			}
+			bad = append(bad, "the bucket being rate-limited can be "+d+" rather than the value held in the shared map: concurrent first requests of a client each spend from a private full bucket")
+		}
+	}
+	check(src, 0)
+	c.Check(len(bad) == 0, rule, construct, p.Pos(allow.Pos()), "the locked bucket is always Load()/LoadOrStore()'s value", strings.Join(bad, "; "))
 }
 
 // c09Isolation: Allow and its Helios callees store only into bucket fields, local cells and the
